@@ -76,7 +76,7 @@ struct ACert {
 	int signer = 0;
 	int hash = 4;
 	int alg_kind = 0;          // 0 = follows signer key; else forced kind in the algorithm identifiers
-	bool corrupt = false;
+	int corrupt = 0;          // see CertSpec::corrupt_sig
 	bool signable = true;      // set by the builder (an RSA key too small for the digest cannot sign)
 };
 struct AAnchor { xl::Name name; int key; bool ca; };
@@ -329,7 +329,10 @@ struct LibOut {
 	std::string cn, dns;
 	std::vector<uint32_t> times;
 };
-static LibOut run_lib(const std::vector<Bytes> &ders, const AConfig &cfg, bool dynamic, unsigned implsel, bool use_time_cb, size_t chunk)
+// prior: what the same context validated before this chain (a TLS engine keeps one validator for all its handshakes,
+// renegotiations included): 0 nothing, 1 the same chain, 2 the same chain abandoned after its first certificate,
+// 3 the same chain in reverse order, 4 an empty chain.  start_chain() must make the outcome independent of it.
+static LibOut run_lib(const std::vector<Bytes> &ders, const AConfig &cfg, bool dynamic, unsigned implsel, bool use_time_cb, size_t chunk, unsigned prior = 0)
 {
 	TaStore st;
 	st.build(cfg.anchors);
@@ -350,6 +353,20 @@ static LibOut run_lib(const std::vector<Bytes> &ders, const AConfig &cfg, bool d
 	br_name_element ne[2] = { { OID_CN_, cnb.data(), cnb.size(), 0 }, { OID_DNS, dnb.data(), dnb.size(), 0 } };
 	br_x509_minimal_set_name_elements(&xc, ne, 2);
 	const br_x509_class **v = &xc.vtable;
+	if (prior) {
+		(*v)->start_chain(v, cfg.has_name ? cfg.server_name.c_str() : nullptr);
+		std::vector<Bytes> first = prior == 4 ? std::vector<Bytes>() : ders;
+		if (prior == 3) std::reverse(first.begin(), first.end());
+		if (prior == 2 && first.size() > 1) first.resize(1);
+		for (auto &d : first) {
+			(*v)->start_cert(v, (uint32_t)d.size());
+			(*v)->append(v, d.data(), d.size());
+			(*v)->end_cert(v);
+		}
+		if (prior != 2) (void)(*v)->end_chain(v);
+		spy.seen.clear();
+		dc.calls = 0;
+	}
 	(*v)->start_chain(v, cfg.has_name ? cfg.server_name.c_str() : nullptr);
 	for (auto &d : ders) {
 		(*v)->start_cert(v, (uint32_t)d.size());
@@ -519,7 +536,16 @@ static Case generate(Tape &t)
 		case 2: c.nb = shifted(t, true); c.na = shifted(t, false); C.defects.push_back(fmt("cert%zu validity bounds moved (still containing the instant)", j)); break;
 		case 3: if (j > 0) { c.subject = ca_name((unsigned)j, t.pick<unsigned>({ 1, 2, 3 })); C.defects.push_back(fmt("cert%zu subject differs from the issuer name below", j)); } break;
 		case 4: { int other = K_ALL_OK[t.u8() % K_ALL_OK.size()]; if (other != c.signer) { c.signer = other; C.defects.push_back(fmt("cert%zu signed by another key", j)); } break; }
-		case 5: c.corrupt = true; C.defects.push_back(fmt("cert%zu signature altered", j)); break;
+		case 5: {
+			static const char *how[] = { "", "one bit flipped", "replaced by the cleartext padded block, one byte longer than the modulus", "replaced by the cleartext padded block, one byte shorter than the modulus",
+				"last byte dropped", "zero byte prepended" };
+			c.corrupt = 1 + (int)(t.u8() % 5);
+			if (pool.at((size_t)c.signer).kind != xl::KK_RSA) c.corrupt = 1;
+			// a 513-byte value exceeds the documented signature buffer (another error code): shorten instead
+			else if (pool.at((size_t)c.signer).bits > 4088 && (c.corrupt == 2 || c.corrupt == 5)) c.corrupt += (c.corrupt == 2 ? 1 : -1);
+			C.defects.push_back(fmt("cert%zu signature altered (%s)", j, how[c.corrupt]));
+			break;
+		}
 		case 6: c.alg_kind = pool.at((size_t)c.signer).kind == xl::KK_RSA ? xl::KK_EC : xl::KK_RSA; C.defects.push_back(fmt("cert%zu algorithm identifier of the other key type", j)); break;
 		case 7: c.hash = 1; C.defects.push_back(fmt("cert%zu signed with MD5", j)); break;
 		case 8: { int h = c.hash; C.cfg.hashes &= ~(1u << h); C.defects.push_back(fmt("hash %s disabled in the validator", xl::hash_name(h))); break; }
@@ -688,6 +714,17 @@ static void check_case(Case &C, Tape &t)
 		VF_CHECK(other.err == lib.err && other.have_key == lib.have_key && other.a == lib.a && other.usages == lib.usages, "%s: anchors supplied %s give error %u (%s), supplied %s give %u (%s)", desc.c_str(),
 			dynamic ? "on demand" : "statically", lib.err, ERRNAME(lib.err), dynamic ? "statically" : "on demand", other.err, ERRNAME(other.err));
 	} else stats.cls("anchors-share-a-name(static only)");
+	// a context that validated something else before gives the same answer
+	{
+		unsigned prior = 1 + (unsigned)(ders.size() + C.cfg.now.s + impl) % 4;
+		LibOut again = run_lib(ders, C.cfg, dynamic, impl, false, 0, prior);
+		VF_CHECK(again.err == lib.err && again.have_key == lib.have_key && again.a == lib.a && again.b == lib.b && again.usages == lib.usages
+			&& again.cn_status == lib.cn_status && again.dns_status == lib.dns_status && again.cn == lib.cn && again.dns == lib.dns,
+			"%s: a fresh context gives error %u (%s), a context that had validated %s before gives %u (%s)%s", desc.c_str(), lib.err, ERRNAME(lib.err),
+			prior == 1 ? "the same chain" : prior == 2 ? "the first certificate of the chain (abandoned)" : prior == 3 ? "the chain in reverse order" : "an empty chain", again.err, ERRNAME(again.err),
+			again.err == lib.err ? " (key, usages or name elements differ)" : "");
+		stats.cls("context-reused");
+	}
 	// harness self-check: the abstract signature relation agrees with OpenSSL on the bytes
 	for (size_t i = 0; i < C.chain.size(); i++) {
 		const ACert &c = C.chain[i];
